@@ -1329,6 +1329,9 @@ class VLE(Equilibrium, phases='lg'):
                 z, T, gamma.f, gamma.args, P, pcf * Psats, phi.f, phi.args, 
                 dict(f_tol=self.y_tol, minimizer_kwargs=dict(f_tol=self.y_tol)),
             )
+            mask = v > mol_vle # Scaling the optimum back may overshoot by round-off
+            v[mask] = mol_vle[mask]
+            v[v < 0.] = 0.
             self._z_last = z
         elif method == 'fixed-point':
             Psats = np.array([i(T) for i in
